@@ -324,7 +324,7 @@ func cmdCheck(args []string) int {
 		}
 		violations++
 		fmt.Printf("VIOLATION property=%s replay=%s\n", id, o.dir)
-		fmt.Printf("  harness=%s %s: %s\n  model=%v\n", o.c.Harness, o.c.Kind, o.c.Label+" "+o.c.Msg, o.c.Model)
+		fmt.Printf("  harness=%s %s: %s\n  model=%s\n", o.c.Harness, o.c.Kind, o.c.Label+" "+o.c.Msg, shortModel(o.c.Model))
 	}
 
 	// ---- evidence
@@ -390,6 +390,23 @@ func cmdCheck(args []string) int {
 	}
 	fmt.Println("OK")
 	return 0
+}
+
+func shortModel(m map[string]string) string {
+	ks := make([]string, 0, len(m))
+	for k := range m {
+		ks = append(ks, k)
+	}
+	sort.Strings(ks)
+	var sb strings.Builder
+	for i, k := range ks {
+		if i >= 16 {
+			sb.WriteString(fmt.Sprintf(" … (%d more, see vector.json)", len(ks)-i))
+			break
+		}
+		sb.WriteString(" " + k + "=" + m[k])
+	}
+	return sb.String()
 }
 
 func keys(m map[string]bool) []string {
@@ -537,7 +554,7 @@ func runReplay(dir string) (bool, string) {
 		os.WriteFile(filepath.Join(dir, "replay.log"), out, 0o644)
 		return false, "native build failed: " + firstLine("", string(out))
 	}
-	cmd := exec.Command(bin.Name(), "-test.run", "^TestZZReplay$", "-test.timeout", "40s", "-test.v")
+	cmd := exec.Command(bin.Name(), "-test.run", "^TestZZReplay$", "-test.timeout", "20s", "-test.v")
 	cmd.Dir = dir
 	cmd.Env = env
 	out, _ = cmd.CombinedOutput()
